@@ -16,7 +16,7 @@ RULE = ("Hypothesis generates lattice models (N<=6 quick, <=7 thorough; optional
         "Non-trivial: i!=j with non-zero G, or a negative pole with beta*|P|>700 (overflow branch), or complex build.")
 ASSUMPTIONS = ["numpy reference for G(tau)", "spectra with levels 1e-10..1e-6 apart are discarded"]
 CONFIG = {
-    "quick": {"flavours": ["real", "complex"], "shards": 8, "examples": 120, "min_nontrivial": 80, "budget_s": 100},
+    "quick": {"flavours": ["real", "complex"], "shards": 8, "examples": 300, "min_nontrivial": 80, "budget_s": 120},
     "thorough": {"flavours": ["real", "complex"], "shards": 16, "examples": 2000, "min_nontrivial": 1500, "budget_s": 3000},
 }
 REQUIRED_CLASSES = {"quick": ["offdiag", "overflow-branch", "complex", "off-axis-z"], "thorough": ["offdiag", "overflow-branch", "complex", "off-axis-z"]}
